@@ -21,10 +21,18 @@ def _jobs(tier, seed):
         rules = sugar.from_plain(g, r, p_mult=0.3, p_name=0.5)
         kinds = {name: r.choice(["none", "single", "list", "list"]) for name, _ in rules}
         tact = [t for t in "abc" if r.random() < 0.4]
+        # every third grammar: constant actions returning a FALSY value (0, False, '', []) on a rule other than the start rule and on terminals:
+        # a matched element is an element whatever its truth value (round-3 seeded change C09-f: `if e2:` in collect_first_sep)
+        tconst = {}
+        if i % 3 == 2:
+            for name, _ in rules[1:]:
+                if r.random() < 0.6:
+                    kinds[name] = r.choice(["k0", "kF", "kS", "kL"])
+            tconst = {t: r.choice(["k0", "kF", "kS", "kL"]) for t in "abc" if t not in tact and r.random() < 0.4}
         # a rule written in two pieces with another rule in between (alternative numbering must follow the grammar order)
         # (not for rules with named matches: pieces with and without assignments are an undocumented combination)
         split = r.random() < 0.35 and len(rules) >= 2 and len(rules[0][1]) >= 2 and not any(it.get("name") for alt in rules[0][1] for it in alt)
-        jobs.append({"rules": rules, "kinds": kinds, "tact": tact, "split": split, "origin": "det" if i % 4 else "rand", "nsent": p["nsent"], "seed": r.randrange(1 << 30)})
+        jobs.append({"rules": rules, "kinds": kinds, "tact": tact, "tconst": tconst, "split": split, "origin": "det" if i % 4 else "rand", "nsent": p["nsent"], "seed": r.randrange(1 << 30)})
     return jobs
 
 
@@ -55,6 +63,8 @@ def tagval(v):
         return ["n"]
     if isinstance(v, bool):
         return ["b", v]
+    if isinstance(v, int):
+        return ["i", v]
     if isinstance(v, str):
         return ["s", v]
     if isinstance(v, list):
@@ -103,8 +113,14 @@ def worker(job):
             actions[name] = mk(name, -1)
         elif k == "list":
             actions[name] = [mk(name, i) for i in range(nalts[name])]
+    CONST = {"k0": 0, "kF": False, "kS": "", "kL": []}
+    for name, k in kinds.items():
+        if k in CONST:
+            actions[name] = (lambda c: (lambda ctx, nodes, **kw: type(c)(c)))(CONST[k])
     for t in job["tact"]:
         actions[t] = (lambda tt: (lambda ctx, v: ("tc", tt, v)))(t)
+    for t, k in job.get("tconst", {}).items():
+        actions[t] = (lambda c: (lambda ctx, v: type(c)(c)))(CONST[k])
     try:
         with real.guard(10), real.quiet():
             g = real.Grammar.from_string(text)
@@ -140,6 +156,9 @@ def worker(job):
         else:
             akind[nt] = helper_kind(nt) or "none"
     tact = [t for t in job["tact"] if t in g.terminals]
+    for t, k in job.get("tconst", {}).items():
+        if t in g.terminals:
+            akind[t] = k
     out = []
     sents = sugar.sentences(rules, rng, n=job["nsent"])
     for toks in sents:
